@@ -187,7 +187,7 @@ func c19Infer(c *vk.Ctx, id, ts string, soundness bool) (accepted bool) {
 
 // C19 — type inference is total and sound; type compatibility is symmetric.
 func C19(c *vk.Ctx) {
-	c.Rule("type strings: (a) every type the registry's base columns report, legal and illegal parameterisations (time zones, DateTime64 precisions 0..10, Decimal precisions at every width boundary, FixedString sizes incl. 0 / negative / non-numeric, enum definitions with quoted commas and parentheses, interval kinds, types the library does not know), each under Array / Nullable / LowCardinality / Map / Tuple wrappers to depth 1, a smaller base set to depth 2 (thorough 3); (b) ALL token strings of length <= n (quick 5, thorough 6) over a 25-token alphabet of type names, punctuation, parameters and junk; (c) nesting depth 10000; (d) every single edit (deletion, insertion or replacement by one of ()',= 0a- at every position, every truncation) of the set-(a) types with at most 3 parentheses; (e) ALL character strings of length <= m (quick 5, thorough 6) over the alphabet {' a = 1 , space - ( )} as the parameter list of Enum8 / Enum16 / DateTime / DateTime64 / Decimal / Decimal64 / FixedString / Map / Tuple / Nested, bare and under Nullable / Array. Oracle: Infer never panics; when it accepts, the column's type does not conflict with the request and a block of that type written by the reference model decodes to the written values. Conflicts is checked reflexive and symmetric on all ordered pairs of set (a) and against the documented equivalences, generated from families of spellings with one wire layout (enum / bare enum / underlying integer; DecimalN / Decimal(P, S) at both ends of each precision range; timestamps with and without zone; Map / Tuple types with 0 / 1 / 2 / 4 spaces after each comma), bare and under Array / Nullable / LowCardinality, with the pairs across families of one group required to conflict. distinct_nontrivial = distinct type strings + ordered pairs.")
+	c.Rule("type strings: (a) every type the registry's base columns report, legal and illegal parameterisations (time zones, DateTime64 precisions 0..10, Decimal precisions at every width boundary, FixedString sizes incl. 0 / negative / non-numeric, enum definitions with quoted commas and parentheses, interval kinds, types the library does not know), each under Array / Nullable / LowCardinality / Map / Tuple wrappers to depth 1, a smaller base set to depth 2 (thorough 3); (a2) all histories Infer(A), [refused Infer(X)], Infer(B) on one ColAuto over a 20-type set: whatever is accepted for B must come with a column whose type does not conflict with B; (b) ALL token strings of length <= n (quick 5, thorough 6) over a 25-token alphabet of type names, punctuation, parameters and junk; (c) nesting depth 10000; (d) every single edit (deletion, insertion or replacement by one of ()',= 0a- at every position, every truncation) of the set-(a) types with at most 3 parentheses; (e) ALL character strings of length <= m (quick 5, thorough 6) over the alphabet {' a = 1 , space - ( )} as the parameter list of Enum8 / Enum16 / DateTime / DateTime64 / Decimal / Decimal64 / FixedString / Map / Tuple / Nested, bare and under Nullable / Array. Oracle: Infer never panics; when it accepts, the column's type does not conflict with the request and a block of that type written by the reference model decodes to the written values. Conflicts is checked reflexive and symmetric on all ordered pairs of set (a) and against the documented equivalences, generated from families of spellings with one wire layout (enum / bare enum / underlying integer; DecimalN / Decimal(P, S) at both ends of each precision range; timestamps with and without zone; Map / Tuple types with 0 / 1 / 2 / 4 spaces after each comma), bare and under Array / Nullable / LowCardinality, with the pairs across families of one group required to conflict. distinct_nontrivial = distinct type strings + ordered pairs.")
 	quick := c.Quick()
 	types := c19Types(quick)
 	accepted := 0
@@ -204,6 +204,60 @@ func C19(c *vk.Ctx) {
 		}
 		c.Eval("well-formed types", 1)
 		c.DistinctN(1)
+	}
+	// (a2) a ColAuto with a history: soundness must not depend on what the same ColAuto was
+	// asked before — after inferring A, and after inferring A and being refused X, whatever
+	// Infer(B) accepts must come with a column of a type that does not conflict with B
+	{
+		hist := []string{"String", "UInt8", "Nullable(String)", "Array(UInt8)", "DateTime64(3)", "Enum8('a' = 1, 'b' = 2)", "LowCardinality(String)", "Decimal(9, 2)",
+			"FixedString(5)", "Map(String, UInt8)", "Tuple(String, UInt8)", "DateTime('Bad/Zone')", "DateTime64(3, 'No/Such_Zone')", "Decimal(77, 0)", "Array(Enum8('a' = 1))",
+			"LowCardinality(Nullable(String))", "Foo", "Nullable(Foo)", "FixedString(x)", "Enum8(=1)"}
+		fresh := map[string]bool{}
+		for _, b := range hist {
+			fresh[b] = new(proto.ColAuto).Infer(proto.ColumnType(b)) == nil
+		}
+		var hn int64
+		for _, a := range hist {
+			if !fresh[a] {
+				continue
+			}
+			for _, x := range append([]string{""}, hist...) {
+				if x != "" && fresh[x] {
+					continue // x is a type that gets refused (or nothing)
+				}
+				for _, b := range hist {
+					hn++
+					id := fmt.Sprintf("history/%s|%s|%s", a, x, b)
+					if (c.Only == "" && !c.Mine(hn)) || (c.Only != "" && c.Only != id) {
+						continue
+					}
+					c.Current(id)
+					msg, fn := vk.Recover(func() {
+						col := new(proto.ColAuto)
+						if err := col.Infer(proto.ColumnType(a)); err != nil {
+							return
+						}
+						if x != "" {
+							_ = col.Infer(proto.ColumnType(x))
+						}
+						err := col.Infer(proto.ColumnType(b))
+						if err != nil {
+							return // refusing is always allowed (a used ColAuto may also accept what a fresh one refuses, e.g. a bad time zone on a compatible column: sound, so not judged)
+						}
+						if inner, ok := col.Data.(proto.Column); ok {
+							if proto.ColumnType(b).Conflicts(inner.Type()) {
+								c.Violation("C19/column-kept-from-history", id, fmt.Sprintf("after Infer(%q), a refused Infer(%q) and an accepted Infer(%q) the ColAuto still holds a column of type %q", a, x, b, inner.Type()), nil)
+							}
+						}
+					})
+					if msg != "" {
+						c.Violation("C19/infer-panics/"+fn, id, msg, nil)
+					}
+					c.Eval("ColAuto histories", 1)
+					c.DistinctN(1)
+				}
+			}
+		}
 	}
 	// (b) token strings
 	n := 5
